@@ -570,6 +570,14 @@ func genCase(t *rapid.T) Case {
 		c.Fn.Result = &r
 		c.Fn.WithErr = true
 	}
+	if c.Fn.Result != nil && rapid.IntRange(0, 5).Draw(t, "errlike") == 0 {
+		// a value type (or a pointer to it) that has an Error method of its own
+		r := TypeDesc{K: "named", Name: "ErrLike"}
+		if rapid.Bool().Draw(t, "errlikeptr") {
+			r = TypeDesc{K: "ptr", Elem: &TypeDesc{K: "named", Name: "ErrLike"}}
+		}
+		c.Fn.Result = &r
+	}
 	c.Strict = rapid.SampledFrom([]string{"", "", "true", "false"}).Draw(t, "strict")
 	c.Array = rapid.SampledFrom([]string{"", "", "true", "false"}).Draw(t, "array")
 	c.Later = rapid.IntRange(0, 5).Draw(t, "later") == 0
